@@ -28,10 +28,12 @@ def recipes(kind, labels):
                 ["add_edge", [[b, a], [c]], "W", None], ["add_edge", [[b], [a]], "W", {"j": "M"}],
                 ["set_node_metadata", a, {"k": "M"}], ["set_attr_h", "name", "M"]]
     if kind == "TemporalHypergraph":
-        return [["add_node", d, {"iso": "M"}], ["add_edge", [a, b], 0, "W", {"k": "M"}],
+        return [["add_node", d, {"iso": "M"}], ["add_node", 5 if labels == "int" else "5"],  # label = a time stamp
+                ["add_edge", [a, b], 0, "W", {"k": "M"}],
                 ["add_edge", [c, b, a], 2, "W", None], ["add_edge", [b, a], 5, "W", {"j": "M"}],
                 ["set_node_metadata", a, {"k": "M"}], ["set_attr_h", "name", "M"]]
-    return [["add_node", d, {"iso": "M"}], ["add_edge", [a, b], "L0", "W", {"k": "M"}],
+    return [["add_node", d, {"iso": "M"}], ["add_node", 7 if labels == "int" else "L1"],  # label = a layer name
+            ["add_edge", [a, b], "L0", "W", {"k": "M"}],
             ["add_edge", [c, b, a], "L1", "W", None], ["add_edge", [b, a], "L1", "W", {"j": "M"}],
             ["set_attr_node", a, "k", "M"], ["set_attr_h", "name", "M"]]
 
@@ -133,6 +135,9 @@ def build_roundtrip(spec):
 
         U = [0, 1, 2, 3] if labels == "int" else ["a", "b", "c", "d"]
         h, m = mk(kind, weighted, labels, S)
+        if spec.get("replace_hmeta"):
+            # the user replaced the hypergraph metadata wholesale (the constructor's 'weighted' / 'type' keys are gone)
+            h.set_hypergraph_metadata({"name": S.int("hm_replaced")})
         before = snapshot(kind, h, U)
         with io_env(S) as (d, fs):
             path = os.path.join(d, "x." + fmt)
@@ -186,8 +191,9 @@ def build_roundtrip(spec):
         cands = {"Hypergraph": lambda: node_sets(U, 3), "DirectedHypergraph": lambda: C02.dir_pairs(U[:3]),
                  "TemporalHypergraph": lambda: C03.cand_records(U[:3]),
                  "MultiplexHypergraph": lambda: C04.cand_records(U[:3])}[kind]()
-        oi = mod.obs_impl(g, f, U, 99, cands, True)
-        om = mod.obs_model(m, f, U, 99, cands, True)
+        UU = sorted(m.nodes, key=str)
+        oi = mod.obs_impl(g, f, UU, 99, cands, True)
+        om = mod.obs_model(m, f, UU, 99, cands, True)
         for x, y in zip(oi, om):
             if "metadata" in x[0] or x[0] == "layers":
                 continue
@@ -368,9 +374,11 @@ def obligations(tier, seed):
     for kind in MODS:
         for weighted in (True, False):
             for fmt in ("json", "hgx"):
-                for labels in (("int", "str") if (not q or kind == "Hypergraph") else ("int",)):
+                for labels in (("int", "str") if (not q or kind in ("Hypergraph", "MultiplexHypergraph")) else ("int",)):
                     out.append({"family": "roundtrip", "kind": kind, "weighted": weighted, "labels": labels,
                                 "format": fmt})
+            out.append({"family": "roundtrip", "kind": kind, "weighted": weighted, "labels": "int", "format": "hgx",
+                        "replace_hmeta": True})
     for weighted, modes in ((False, ["", "0", "10"]), (True, ["1", "11"])):
         for mode in modes:
             out.append({"family": "hgr", "weighted": weighted, "mode": mode})
@@ -425,7 +433,10 @@ META = {
     "stand_ins": ["json -> JSON data model; pickle -> type-preserving deep copy; open -> in-memory files (all three bound "
                   "into save.py/load.py/hif.py; validated against the real modules on every run)",
                   "int in load.py -> parser that maps '@name' tokens to symbolic integers (weights of the .hgr file)"],
-    "outside_claim": ["byte-level behaviour of json/pickle, file-system errors", "metadata values other than integers; "
+    "outside_claim": ["byte-level behaviour of json/pickle, file-system errors",
+                      "objects whose hypergraph metadata was replaced wholesale by set_hypergraph_metadata are round-tripped "
+                      "through .hgx only (the text loader derives weightedness from that metadata and the constructor adds "
+                      "its own keys: observed while building, not claimed)", "metadata values other than integers; "
                       "nested metadata", ".hgr files listing a hyperedge twice or a node twice in a hyperedge",
                       "HIF documents with two edges over the same incidence set, or without nodes/edges sections"],
     "assumptions": ["json/pickle behave as their data models", "hyperedge metadata compared modulo weight/time/layer"],
